@@ -53,6 +53,8 @@ enum Edit {
     DnskeyKeyByte(u32),
     SubstituteDnskey,
     StripRrsigs,
+    /// change the CLASS of the answer records (0), of their RRSIGs (1) or of both (2)
+    ClassChange(u8),
 }
 
 #[derive(Serialize, Deserialize, Clone, Debug)]
@@ -97,7 +99,7 @@ fn queries() -> Vec<Query> {
 }
 
 fn gen_edit(r: &mut Rng) -> (usize, Edit) {
-    let e = match r.below(26) {
+    let e = match r.below(28) {
         0..=3 => Edit::BitFlip(r.next_u64() as u32),
         4 => Edit::TypeCovered,
         5 => Edit::Algorithm,
@@ -120,7 +122,8 @@ fn gen_edit(r: &mut Rng) -> (usize, Edit) {
         22 => Edit::DnskeyRevoke,
         23 => Edit::DnskeyKeyByte(r.next_u64() as u32),
         24 => Edit::SubstituteDnskey,
-        _ => Edit::StripRrsigs,
+        25 => Edit::StripRrsigs,
+        _ => Edit::ClassChange(r.below(3) as u8),
     };
     let target = match e {
         Edit::DnskeyZoneFlagOff | Edit::DnskeyRevoke | Edit::DnskeyKeyByte(_) | Edit::SubstituteDnskey => 1,
@@ -290,6 +293,14 @@ fn apply_edit(orig: &Message, e: Edit, other_key: &PublicKeyBuf) -> Option<Messa
             m.answers.iter().find(|r| r.record_type() == RecordType::DNSKEY)?;
             map_dnskey(&mut m, |k| DNSKEY::with_flags(k.flags(), other_key.clone()))
         }
+        Edit::ClassChange(which) => {
+            for rec in m.answers.iter_mut() {
+                let is_sig = rec.record_type() == RecordType::RRSIG;
+                if (which == 0 && !is_sig) || (which == 1 && is_sig) || which == 2 {
+                    rec.dns_class = hickory_proto::rr::DNSClass::CH;
+                }
+            }
+        }
         Edit::StripRrsigs => {
             let before = m.answers.len();
             m.answers.retain(|r| r.record_type() != RecordType::RRSIG);
@@ -455,6 +466,7 @@ fn edit_code(e: Edit) -> u64 {
         Edit::DnskeyKeyByte(_) => 21,
         Edit::SubstituteDnskey => 22,
         Edit::StripRrsigs => 23,
+        Edit::ClassChange(_) => 24,
     }
 }
 
@@ -565,7 +577,8 @@ async fn scenario(p: Plan) {
                     };
                     // the returned RRset must be exactly the genuine one
                     let returned: Vec<&RData> = resp.answers.iter().filter(|r| r.name.to_lowercase() == rec.name.to_lowercase() && r.record_type() == rec.record_type()).map(|r| &r.data).collect();
-                    let same = returned.len() == data.len() && returned.iter().all(|d| data.contains(d));
+                    let class_ok = resp.answers.iter().filter(|r| r.name.to_lowercase() == rec.name.to_lowercase() && (r.record_type() == rec.record_type() || matches!(&r.data, RData::DNSSEC(DNSSECRData::RRSIG(s)) if s.input().type_covered == rec.record_type()))).all(|r| r.dns_class == hickory_proto::rr::DNSClass::IN);
+                    let same = class_ok && returned.len() == data.len() && returned.iter().all(|d| data.contains(d));
                     if !same {
                         if exec::violate("C06.secure-modified", &format!("{}:rrset-differs", edit_applied.clone().unwrap_or_else(|| "none".into())), format!("step {si}: Secure RRset {} {} = {returned:?} differs from the signed RRset {data:?}", rec.name, rec.record_type())) {
                             return;
